@@ -22,11 +22,14 @@ CHECKS = {
 	},
 	'C05': {
 		'category': 'model_checking',
-		'technique': 'bounded symbolic case analysis (CrossHair + z3) of the cache decision code over nondeterministic environment stubs; closed truncation obligations',
-		'text': 'Sentences 2 and 3 only. With os/glob/open, the source loader and the module replaced by recording stubs answering symbolic booleans, every path of CacheProvider.get and SymbolDBPersistor.stored/store/restore shows: '
+		'technique': 'bounded symbolic execution / case analysis (CrossHair + z3) of the cache key computations and cache decision code over nondeterministic environment stubs; failing key steps replayed through the real pipeline; closed truncation and edit/run history obligations',
+		'text': 'Sentence 1 as step laws: SyntaxParserOfLark.__call__ run twice with symbolic float mtimes of source and grammar never serves the tree stored by the first run when a mtime differs (str of a float modelled as injective); '
+			'CacheProvider/CachedProxy hand a stored instance to a later process only for the same cache key and identity; Module.identity (the symbol-table file name) changes when the module or a direct import is edited, over every acyclic import graph of 4 modules '
+			'(the cone at distance >= 2 is a listed finding, demonstrated through the real pipeline). Closed: edit / run / clear histories of generated module graphs through the real pipeline and cache files, every run compared with the run on an empty cache directory. '
+			'Sentences 2 and 3: with os/glob/open, the source loader and the module replaced by recording stubs answering symbolic booleans, every path of CacheProvider.get and SymbolDBPersistor.stored/store/restore shows: '
 			'caching disabled => no cache file opened, unlinked, globbed, created or loaded; enabled => load iff the identity file exists, else exactly one save. Every truncation offset of a stored tree / symbol table either raises or restores the original.',
 		'design_ref': 'DESIGN.md section 2, C05',
-		'note': 'Sentence 1 (warm == cold over edit histories) is outside: it needs a file system, md5 identities and repeated pipeline runs. ' + NOTE_COMMON,
+		'note': 'md5 collision-freeness assumed; import graphs of <= 4 modules; histories of the listed families; the pickled Lark parser cache content is outside. ' + NOTE_COMMON,
 	},
 	'C06': {
 		'category': 'model_checking',
